@@ -21,6 +21,10 @@ const keyArrayInternal = "untyped-array-without-common-element-type-internal-err
 // composite field, fails to be imported with atree's "can't copy container" CopyError
 const keyCopyError = "ill-typed-simple-array-with-container-element-atree-copy-error"
 
+// key of the known finding: dictionary keys are hashed while the dictionary is assembled, before validation;
+// an enum key without rawValue / with a non-enum kind tag / with a container raw value is an internal error
+const keyHashInternal = "composite-dictionary-key-hashed-before-validation-internal-error"
+
 type kase struct {
 	T      *Ty
 	X      *X
@@ -44,6 +48,9 @@ func num(p string, n int64) *X { return &X{K: "num", P: p, N: big.NewInt(n)} }
 func corpusCases() []*kase {
 	s0 := func(id int64) *X { return &X{K: "comp", Kind: "Struct", C: 0, Fields: []int{0}, Elems: []*X{num("Int", id)}} }
 	anyS := prim("AnyStruct")
+	enDict := dict(comp(6), prim("Int"))
+	enumRaw := func(raw *X) *X { return &X{K: "comp", Kind: "Enum", C: 6, Fields: []int{8}, Elems: []*X{raw}} }
+	enKey := func(k *X) *X { return &X{K: "dict", Keys: []*X{k}, Elems: []*X{num("Int", 1)}} }
 	mk := func(t *Ty, x *X, what string) *kase { return &kase{T: t, X: x, Mut: what, Origin: "corpus"} }
 	return []*kase{
 		// the finding: element type inference fails -> internal error
@@ -56,6 +63,21 @@ func corpusCases() []*kase {
 			{K: "array", Elems: []*X{{K: "array", Elems: []*X{num("Int8", 1)}}}}, num("Int", 1), s0(1)}}, "array-in-int8-array-field"),
 		mk(varr(varr(prim("Int"))), &X{K: "array", Elems: []*X{{K: "array", Elems: []*X{s0(1)}}}}, "struct-in-nested-int-array"),
 		mk(anyS, &X{K: "some", In: &X{K: "array", Elems: []*X{{K: "address", Addr: 3}, {K: "none"}, {K: "string", S: ""}}}}, "optional-mix-untyped"),
+		// enum dictionary keys: well formed, malformed inside (right type id), at the top and nested
+		mk(enDict, enKey(enumValue(1)), "enum-key"),
+		mk(enDict, enKey(enumRaw(&X{K: "string", S: "a"})), "enum-key-raw-string"),
+		mk(enDict, enKey(enumRaw(num("UInt16", 1))), "enum-key-raw-uint16"),
+		mk(enDict, enKey(&X{K: "comp", Kind: "Enum", C: 6, Fields: []int{8, 7}, Elems: []*X{num("UInt8", 1), num("Int", 1)}}), "enum-key-extra-field"),
+		mk(enDict, enKey(&X{K: "comp", Kind: "Enum", C: 6}), "enum-key-missing-raw"),
+		mk(enDict, enKey(&X{K: "comp", Kind: "Struct", C: 6, Fields: []int{8}, Elems: []*X{num("UInt8", 0)}}), "enum-key-struct-tag"),
+		mk(enDict, enKey(enumRaw(&X{K: "array", Elems: []*X{num("UInt8", 1)}})), "enum-key-raw-array"),
+		mk(varr(enDict), &X{K: "array", Elems: []*X{enKey(enumRaw(&X{K: "string", S: "a"}))}}, "enum-key-raw-string-in-array"),
+		mk(opt(enDict), &X{K: "some", In: enKey(enumRaw(num("Int", 1)))}, "enum-key-raw-int-in-optional"),
+		mk(comp(7), &X{K: "comp", Kind: "Struct", C: 7, Fields: []int{9, 10}, Elems: []*X{enKey(enumRaw(&X{K: "bool", B: true})), enumValue(0)}}, "enum-key-raw-bool-in-field"),
+		mk(comp(7), &X{K: "comp", Kind: "Struct", C: 7, Fields: []int{9, 10}, Elems: []*X{enKey(enumValue(1)), enumRaw(&X{K: "string", S: "a"})}}, "enum-field-raw-string"),
+		mk(anyS, enKey(enumRaw(&X{K: "string", S: "a"})), "enum-key-raw-string-untyped"),
+		mk(dict(prim("HashableStruct"), prim("Int")), enKey(enumRaw(&X{K: "string", S: "a"})), "enum-key-raw-string-hashable"),
+		mk(varr(comp(6)), &X{K: "array", Elems: []*X{enumRaw(num("UInt16", 1))}}, "enum-element-raw-uint16"),
 		// accepted shapes
 		mk(anyS, &X{K: "array", Elems: []*X{num("Int", 1), {K: "string", S: "a"}}}, "hashable-mix"),
 		mk(anyS, &X{K: "array", Elems: []*X{num("Int8", 1), num("Int16", 2)}}, "signed-integer-mix"),
@@ -223,6 +245,8 @@ func run(sum *lib.Summary) {
 			switch {
 			case r.Class == "RInternal" && strings.Contains(r.Err, "cannot import array: elements do not belong to the same type"):
 				sum.Fail(keyArrayInternal, "argument rejected with an internal error instead of a user error: "+r.Err[:200], replay)
+			case r.Class == "RInternal" && (strings.Contains(r.Err, "unexpected: unreachable") || strings.Contains(r.Err, "is not interpreter.HashableValue")) && hasCompositeKey(k.X):
+				sum.Fail(keyHashInternal, "argument with a malformed composite dictionary key rejected with an internal error: "+r.Err[:120], replay)
 			case r.Class == "RCopy":
 				sum.Fail(keyCopyError, "argument rejected with a storage-layer copy error instead of an invalid-argument error: "+r.Err[:160], replay)
 			case r.Class == "RInternal" || r.Class == "Crash" || strings.HasPrefix(r.Class, "Other:"):
@@ -290,4 +314,24 @@ func comparable(x *X) bool {
 		}
 	}
 	return true
+}
+
+func hasCompositeKey(x *X) bool {
+	if x == nil {
+		return false
+	}
+	for _, k := range x.Keys {
+		if k.K == "comp" || hasCompositeKey(k) {
+			return true
+		}
+	}
+	if hasCompositeKey(x.In) {
+		return true
+	}
+	for _, e := range x.Elems {
+		if hasCompositeKey(e) {
+			return true
+		}
+	}
+	return false
 }
